@@ -109,6 +109,8 @@ def generic_conditions(fx):
 
 def eval_path_cond(c, env):
     """value of one path-condition entry: a boolean term, or ('arm', scrutinee, pattern key) of a match"""
+    if c[0] == "survived":
+        return eval_path_cond(c[1], env)
     if c[0] == "arm":
         sc, key = c[1], c[2]
         if sc[0] == "call" and sc[1].endswith("::cmp") and len(sc[2]) == 2:
@@ -201,3 +203,34 @@ def formula_kinds(fx, multi_guard=True):
     for c in fx.variants("syntax_tree::fol::sigma_0::BinaryConnective"):
         kinds["bin:" + c] = A(F, "BinaryFormula", connective=A("BinaryConnective", c))
     return kinds
+
+
+def rule_dispatch(ctx, which, ty, cases, group="PRN-D"):
+    """Every operator node of the printed type goes through the generic parenthesising printer, with its own operands, in order, on every
+    path: Display::fmt of Format<ty> is evaluated on each operator constructor (operands opaque) and must produce exactly one unconditional
+    call fmt_unary(self, Format(arg)) / fmt_binary(self, Format(lhs), Format(rhs)) and no other output.  A special case that writes an
+    operand directly bypasses the precedence comparison that the parser's binding powers were checked against.
+    cases: [(variant, operator field, operator enum def-path | None, operand fields, 'fmt_unary' | 'fmt_binary')]"""
+    fx = ctx.facts
+    db = printers.display_impl(fx, which, ty)
+    site = ctx.site(db)
+    n = 0
+    for variant, opfield, openum, operands, fn in cases:
+        ops = fx.variants(openum) if openum else [None]
+        if not ops:
+            raise AnalysisGap("no variants for %s" % openum)
+        for opv in ops:
+            fields = [(f, ("param", "$" + f)) for f in operands]
+            if openum:
+                fields.append((opfield, ("ctor", "%s::%s" % (openum.split("::")[-1], opv), ())))
+            node = ("ctor", "%s::%s" % (ty, variant), tuple(sorted(fields)))
+            me = ("ctor", "Format", (("0", node),))
+            ev = sym.Eval(fx, inline_depth=0)
+            ev.function(db, [me, ("param", "f")])
+            want = [((), (), ("emit", "Precedence::" + fn, (me,) + tuple(("ctor", "Format", (("0", ("param", "$" + f)),)) for f in operands)))]
+            got = [(c, l, e) for c, l, e in ev.out]
+            n += 1
+            ctx.add(group, "dispatch:%s:%s%s" % (ty, variant, ":" + opv if opv else ""), got == want, site,
+                    "Display for Format<%s> prints %s%s with exactly one unconditional %s(self, %s): %s" % (
+                        ty, variant, "{%s}" % opv if opv else "", fn, ", ".join(operands), [sym.pretty(e)[:140] for _, _, e in got][:3]))
+    return n
